@@ -211,7 +211,7 @@ class Case:
 
 
 def build_case(m, n, kind, n_in, n_out, has_change=True, change_pos=None, with_xpubs=False, segwit_flag=False,
-               id_offset=0):
+               id_offset=0, reuse_address=False):
     """honest PSBT of the wallet (cosigners id_offset..id_offset+n-1): created, then updated."""
     c = Case()
     ids = list(range(id_offset, id_offset + n))
@@ -229,7 +229,7 @@ def build_case(m, n, kind, n_in, n_out, has_change=True, change_pos=None, with_x
     tx_ins, total = [], 0
     c.funding = []
     for j in range(n_in):
-        nm, red, wit, spk = wallet_script(kind, m, ids, 0, j)
+        nm, red, wit, spk = wallet_script(kind, m, ids, 0, 0 if reuse_address else j)
         amount = 100000 + 1000 * j
         prev = funding_tx(j, spk, amount)
         tx_lookup[prev.hash()] = prev
@@ -751,6 +751,25 @@ def job_reject(kinds):
                               {"case": case.label, "mutation": mid, "psbt": b64(raw2), "honest": b64(sraw)},
                               "PSBT with mutation '%s' was accepted by PSBT.parse" % mid, key=(case.label, mid))
                     # the same mutation applied to a loaded object must be caught by validate()
+            # address reuse: two inputs controlled by the SAME keys; a signature that is valid for input 0
+            # replayed on input 1 (same key, same bytes) is not a signature of input 1
+            m2, n2 = ((2, 2) if kind in KINDS_MULTI else (1, 1))
+            case = build_case(m2, n2, kind, 2, 2, id_offset=seed % 3, reuse_address=True)
+            p = copy.deepcopy(case.psbt)
+            for i in case.ids[:2]:
+                p.sign(root(i))
+            sraw = p.serialize()
+            st = S.psbt_parse(sraw)
+            if rec.check("C10.d.honest-loads", outcome(parse, sraw)[0] == "ok", {"case": case.label + "/reuse", "psbt": b64(sraw)}, "honest signed PSBT (address reuse) rejected"):
+                s2 = copy.deepcopy(st)
+                shared = [k for k in s2["inputs"][0]["partial_sigs"] if k in s2["inputs"][1]["partial_sigs"]]
+                if shared and s2["inputs"][0]["partial_sigs"][shared[0]] != s2["inputs"][1]["partial_sigs"][shared[0]]:
+                    s2["inputs"][1]["partial_sigs"][shared[0]] = s2["inputs"][0]["partial_sigs"][shared[0]]
+                    raw2 = S.psbt_ser(s2)
+                    got = outcome(parse, raw2)
+                    rec.check("C10.d.rejected-at-load.sig-replayed-from-earlier-input", got[0] == "raise",
+                              {"case": case.label + "/reuse", "mutation": "sig-replayed-from-earlier-input", "psbt": b64(raw2), "honest": b64(sraw)},
+                              "signature of input 0 replayed on input 1 (same key) was accepted by PSBT.parse", key=(case.label, "replay"))
         return rec.result()
     return run
 
